@@ -15,7 +15,8 @@
 (***************************************************************************)
 EXTENDS Shapes, TLC, Json
 
-CONSTANTS K, MaxN, Stride, Offset
+CONSTANTS K, MaxN, Stride, Offset,
+          Mode      \* "integer": segments of integer length, exact arc length; "general": any lattice segments (irrational lengths)
 NG == (K + 1) * (K + 1)
 GridSeq == [i \in 1 .. NG |-> <<(i - 1) \div (K + 1), (i - 1) % (K + 1)>>]
 SegLen(a, b) == ISqrt(D2(a, b))
@@ -75,13 +76,21 @@ Case(cs) ==
                 from_end   |-> PointAt(cs, <<(c[2] - c[1]) * L, c[2]>>)]],
      densify |-> [k \in DOMAIN MaxList |-> [max |-> MaxList[k], minpts |-> MinPts(cs, 1, MaxList[k])]]]
 
+\* General slopes: arc length is a sum of square roots, which the specification does not evaluate.  What IS exact there:
+\* a ratio / distance at or before the start gives the first vertex, at or beyond the end the last vertex; the squared segment
+\* lengths (so that the harness can form distances); and the laws relating the forms to each other (checked on geo's own output).
+GeneralCase(cs) ==
+    [op |-> "linemeasure_general", cs |-> cs, simple |-> (Len(cs) >= 2 /\ SimplePath(cs)),
+     first |-> cs[1], last |-> cs[Len(cs)],
+     seg2 |-> [i \in 1 .. Len(cs) - 1 |-> D2(cs[i], cs[i + 1])],
+     irrational |-> \E i \in 1 .. Len(cs) - 1 : ~IsSquare(D2(cs[i], cs[i + 1]))]
 Next == /\ Len(sel) < MaxN
-        /\ \E j \in 1 .. NG : IntLen(GridSeq[sel[Len(sel)]], GridSeq[j]) /\ sel' = Append(sel, j)
-        /\ PrintT(<<"CASE", ToJson(Case(Pts(sel')))>>)
+        /\ \E j \in 1 .. NG : (Mode = "general" \/ IntLen(GridSeq[sel[Len(sel)]], GridSeq[j])) /\ sel' = Append(sel, j)
+        /\ PrintT(<<"CASE", ToJson(IF Mode = "general" THEN GeneralCase(Pts(sel')) ELSE Case(Pts(sel')))>>)
 Spec == Init /\ [][Next]_vars
 
 \* the walk computes the arc-length parametrisation, from-end is the mirror image
-WalkOK == Len(sel) >= 2 =>
+WalkOK == (Len(sel) >= 2 /\ Mode = "integer") =>
     LET cs == Pts(sel) L == TotalLen(cs, 1) IN
     \A k \in DOMAIN Ratios :
       LET c == Clamp01(Ratios[k]) d == <<c[1] * L, c[2]>> IN
